@@ -60,6 +60,27 @@ class W:
     pass
 
 
+class Model:
+    """an application object that is not a DBusObject itself but adaptable
+    to one (exportObject accepts anything adaptable to IDBusObject)"""
+
+    def __init__(self, path, factory):
+        self.path = path
+        self.factory = factory
+
+
+_ADAPTER = []
+
+
+def _register_adapter():
+    if not _ADAPTER:
+        from twisted.python import components
+        from txdbus import objects as O
+        components.registerAdapter(lambda m: m.factory(m.path), Model,
+                                   O.IDBusObject)
+        _ADAPTER.append(True)
+
+
 class TreeScenario(explore.Scenario):
     name = 'C16/tree'
 
@@ -101,7 +122,10 @@ class TreeScenario(explore.Scenario):
     def _do(self, w, ev):
         p = UNIVERSE[ev[1]]
         if ev[0] == 'export':
-            if self.params.get('reuse'):
+            if self.params.get('adapted'):
+                _register_adapter()
+                w.cw.conn.exportObject(Model(p, w.T))
+            elif self.params.get('reuse'):
                 # the application keeps its object and exports the same
                 # instance again after having unexported it
                 if p not in w.inst:
@@ -383,6 +407,10 @@ def run(ctx):
                      'paths': (1, 2, 3, 4) if ctx.quick else (0, 1, 2, 3, 4, 6)},
                     max_depth=30,
                     label='the same instances exported again after unexport')
+    explore.explore(ctx, TreeScenario,
+                    {'dedup': True, 'paths': (1, 2, 4), 'adapted': True},
+                    max_depth=30,
+                    label='objects exported through an IDBusObject adapter')
     explore.explore(ctx, TreeScenario,
                     {'dedup': True, 'paths': (1, 2, 3, 4),
                      'badexport': (1, 2, 4)}, max_depth=30,
